@@ -151,11 +151,28 @@ pub fn t_set(n: usize, stream: u64) -> Vec<Vec<u8>> {
     dedup_keep_order(v)
 }
 
-/// M(n) = S ∪ W0 ∪ LB ∪ D(32)
+/// Periodic strings: a dense pattern of period 1, 2, 4, 8, 16 bytes repeated (keys like "ABCDABCD", equal halves,
+/// equal words) – three patterns per period.
+pub fn rep(n: usize, stream: u64) -> Vec<Vec<u8>> {
+    let mut v = Vec::new();
+    for p in [1usize, 2, 4, 8, 16] {
+        if 2 * p > n {
+            break;
+        }
+        for k in 0..3u64 {
+            let pat = dense(p, stream.wrapping_add(1000 + p as u64), k);
+            v.push((0..n).map(|i| pat[i % p]).collect());
+        }
+    }
+    v
+}
+
+/// M(n) = S ∪ W0 ∪ LB ∪ REP ∪ D(32)
 pub fn m_set(n: usize, stream: u64) -> Vec<Vec<u8>> {
     let mut v = s_set(n, stream);
     v.extend(w0(n));
     v.extend(lb(n));
+    v.extend(rep(n, stream));
     v.extend(d(n, stream, 32));
     dedup_keep_order(v)
 }
